@@ -214,7 +214,18 @@ func runAskerLife(seed int64, round int) (*Trace, error) {
 		return nil, fmt.Errorf("route %s: the asker did not terminate", route)
 	}
 	// everything the dead asker had asked must be complete by now; give the waiters' goroutines time to say so
-	time.Sleep(150 * time.Millisecond)
+	allDone := func() bool {
+		for _, a := range asks {
+			if _, ok := done.Load(a.ID); !ok {
+				return false
+			}
+		}
+		return true
+	}
+	for limit := time.Now().Add(1500 * time.Millisecond); time.Now().Before(limit) && !allDone(); {
+		time.Sleep(time.Millisecond)
+	}
+	time.Sleep(2 * time.Millisecond) // the second waiter of the last future
 	for _, a := range asks {
 		if _, ok := done.Load(a.ID); !ok {
 			ev(map[string]any{"e": "Pending", "m": a.ID})
